@@ -8,6 +8,7 @@ import (
 	"os"
 	"path/filepath"
 	"sort"
+	"strings"
 
 	"github.com/gobwas/ws"
 	"github.com/gobwas/ws/wsflate"
@@ -120,6 +121,13 @@ func c12(c *ctx) {
 		dest := &bytes.Buffer{}
 		fc := &fakeC{script: chunks}
 		w := wsflate.NewWriter(dest, func(x io.Writer) wsflate.Compressor { fc.w = x; return fc })
+		if strings.HasSuffix(key, "/reused") { // the writer has carried a whole message before and was Reset
+			fc.script = [][]byte{{7, 7, 7, 7, 7, 0, 0, 255, 255}}
+			w.Flush()
+			dest = &bytes.Buffer{}
+			w.Reset(dest)
+			fc.script, fc.i = chunks, 0
+		}
 		for i := 0; i < len(chunks)-1; i++ {
 			w.Write([]byte("data"))
 		}
@@ -162,6 +170,8 @@ func c12(c *ctx) {
 					}
 				}
 				cbufCase(fmt.Sprintf("cbuf/%v/%v/one", body, withTail), cout, nil)
+				cbufCase(fmt.Sprintf("cbuf/%v/%v/one/reused", body, withTail), cout, nil)
+				cbufCase(fmt.Sprintf("cbuf/%v/%v/split/reused", body, withTail), cout, []int{len(cout) / 2})
 			}
 		})
 	}
